@@ -107,6 +107,10 @@ class C09(PropBase):
                 mid = policy.client_id_class_pick(rng, model, cls)
                 st.hit("unimplemented_protocol_op_to_client")
                 return {"op": "inject", "to": "c", "msg": policy.byz_raw_op(rng, mid if mid is not None else 0)}
+            if init.get("preroll") and model.out and rng.random() < 0.25:
+                mid = policy.client_id_class_pick(rng, model, "alias")
+                kind = rng.choice(policy.RESPONSE_KINDS)
+                return {"op": "inject", "to": "c", "msg": policy.byz_response(g, mid, kind, None)}
             if bad or not model.out:
                 kinds = policy.RESPONSE_KINDS
                 k = (self.idx + w.events) % (len(kinds) * 5)
